@@ -2,6 +2,7 @@
 //! Valid files (written by the crate) x {every single-bit flip (exhaustive on tiny files), byte
 //! substitution, truncation, region delete / duplicate / transpose, field edits with and without
 //! CRC fix-up, random non-format strings}.  Commands and executors: see a_c02.rs.
+// requires-verif-hooks (hook H3: FilterConfig / FilterType re-exports); left out of guard-off builds by build.rs
 use super::a_c02::*;
 use crate::encutil::*;
 use crate::util::*;
@@ -284,6 +285,48 @@ fn tiny_xz(rng: &mut Rng, check: u8, filters: Vec<(u8, u32)>, data: Vec<u8>, spl
     }
 }
 
+/// cumulative end offsets of the members of a valid LZIP file (backward walk over the member_size fields)
+pub fn lzip_member_ends(f: &[u8]) -> Vec<usize> {
+    let mut ends = Vec::new();
+    let mut end = f.len();
+    while end >= 26 {
+        let ms = u64::from_le_bytes(f[end - 8..end].try_into().unwrap()) as usize;
+        if ms < 26 || ms > end {
+            break;
+        }
+        ends.push(end);
+        end -= ms;
+    }
+    ends.reverse();
+    ends
+}
+
+/// What a reader may return for the damaged file `v` of the valid file `f` (content `d`, members
+/// with uncompressed sizes `members`, ending at `ends`): the original content, or - the loss the
+/// format itself defines - the content of the first j members when these are intact in `v` and
+/// what follows them is trailing data, i.e. does NOT begin with the member magic or, at the end of
+/// the input, with a proper prefix of it.
+fn lzip_kind(f: &[u8], v: &[u8], d: &[u8], members: &[u64], ends: &[usize]) -> String {
+    if members.len() <= 1 || ends.len() != members.len() {
+        return format!("corrupt:{}", hex(d));
+    }
+    let mut allowed = vec![hex(d)];
+    let mut acc = 0usize;
+    for j in 0..members.len() - 1 {
+        acc += members[j] as usize;
+        let k = ends[j];
+        if v.len() >= k && v[..k] == f[..k] {
+            let rest = &v[k..];
+            let n = rest.len().min(4);
+            let looks_like_member = n > 0 && rest[..n] == b"LZIP"[..n];
+            if !looks_like_member {
+                allowed.push(hex(&d[..acc]));
+            }
+        }
+    }
+    format!("oneof:{}", allowed.join(","))
+}
+
 fn xz_kind(check: u8, content: &[u8]) -> String {
     // the property excludes CheckType::None (nothing protects the payload there)
     if check == 0 { "any".to_string() } else { format!("corrupt:{}", hex(content)) }
@@ -353,6 +396,25 @@ pub fn gen(rng: &mut Rng, tier: &str, dist: &mut Dist) -> Vec<String> {
                 continue;
             }
             cmds.push(format!("xz_read {} 0 {} {} {} {}", rng.below(2), hex(&v), ints(&sizes), cap_for(d.len()), xz_kind(g.check, &d)));
+            // structured damage of multi-block files: whole trailing blocks removed, or a whole block
+            // repeated, with index and footer untouched (only the comparison of the index with the
+            // blocks actually decoded can notice)
+            if let Some(l) = xz_layout(&f, g.check) {
+                if l.blocks.len() >= 2 && g.check != 0 {
+                    let nb = l.blocks.len();
+                    let k = 1 + rng.below(nb as u64 - 1) as usize; // blocks kept
+                    let mut v = f[..l.blocks[k - 1].3].to_vec();
+                    v.extend_from_slice(&f[l.index_start..]);
+                    dist.bump("xz.trailing_blocks_removed");
+                    cmds.push(format!("xz_read {} 0 {} {} {} {}", rng.below(2), hex(&v), ints(&sizes), cap_for(d.len()), xz_kind(g.check, &d)));
+                    let j = rng.below(nb as u64) as usize;
+                    let mut v = f[..l.index_start].to_vec();
+                    v.extend_from_slice(&f[l.blocks[j].0..l.blocks[j].3]);
+                    v.extend_from_slice(&f[l.index_start..]);
+                    dist.bump("xz.block_repeated");
+                    cmds.push(format!("xz_read {} 0 {} {} {} {}", rng.below(2), hex(&v), ints(&sizes), cap_for(2 * d.len()), xz_kind(g.check, &d)));
+                }
+            }
         } else {
             let g = gen_lzip(rng, i, 300, dist);
             let f = match g.write() { Outcome::Ok(f) => f, _ => continue };
@@ -375,14 +437,23 @@ pub fn gen(rng: &mut Rng, tier: &str, dist: &mut Dist) -> Vec<String> {
             // The format tolerates trailing data after a complete member: when the damage leaves a
             // prefix of complete members intact and destroys the magic of the next one, the result is
             // the content of that prefix (the loss the format itself defines).
-            let mut allowed = vec![hex(&d)];
-            let mut acc = 0usize;
-            for m in &members[..members.len().saturating_sub(1)] {
-                acc += *m as usize;
-                allowed.push(hex(&d[..acc]));
-            }
-            let kind = if members.len() <= 1 { format!("corrupt:{}", hex(&d)) } else { format!("oneof:{}", allowed.join(",")) };
+            let ends = lzip_member_ends(&f);
+            let kind = lzip_kind(&f, &v, &d, &members, &ends);
             cmds.push(format!("lzip_read {} {} {} {}", hex(&v), ints(&sizes), cap_for(d.len()), kind));
+            // structured damage of multi-member files: the file cut 1..7 bytes into the header of a
+            // later member (a proper prefix of the magic, or the magic without version / dictionary
+            // byte, at the end of the input is a truncated member, not trailing data)
+            if ends.len() >= 2 {
+                let j = rng.below(ends.len() as u64 - 1) as usize;
+                for extra in [1usize, 2, 3, 4, 5] {
+                    let cut = ends[j] + extra;
+                    if cut < f.len() {
+                        let v = f[..cut].to_vec();
+                        dist.bump("lzip.cut_in_later_header");
+                        cmds.push(format!("lzip_read {} {} {} {}", hex(&v), ints(&sizes), cap_for(d.len()), lzip_kind(&f, &v, &d, &members, &ends)));
+                    }
+                }
+            }
         }
     }
     // ---- strings that are not the format at all ----
